@@ -25,7 +25,7 @@ def _run(db, it, dom, eng, meth, shape, out, shift, qmode, cplx):
         if cplx:
             return dom.lift(dom.rat(dom.sym('a%d%d' % (i, j))) + dom.R.I * dom.rat(dom.sym('b%d%d' % (i, j))))
         return dom.sym('a%d%d' % (i, j))
-    Q = dom.sym('Q') if qmode == 'scalar' else Tup([dom.sym('Qy'), dom.sym('Qx')])
+    Q = dom.sym('Q') if qmode == 'scalar' else (Const(int(qmode.rsplit('_', 1)[1])) if qmode.startswith('scalar_const_') else Tup([dom.sym('Qy'), dom.sym('Qx')]))
     res = it.run(f, kwargs=lambda: {'ary': FArr.of(shape, [cell(i, j) for i in range(shape[0]) for j in range(shape[1])], DType('c', 16) if cplx else DType('f', 8)),
                                     'Q': Q, 'samples_out': Tup([Const(out[0]), Const(out[1])]), 'shift': Tup([Const(shift[0]), Const(shift[1])])}, self_obj=mk)
     rets = [p for p in res if p.outcome == 'return']
@@ -127,3 +127,40 @@ def defer_to_routes(run, db, what, err, credits=()):
             base = base.run
         base.credit(name, k, '%s refused; chirp-Z == matrix DFT decided on values' % what)
     return True
+
+
+def fft_route_value_rules(run, db):
+    """the padded-FFT route against the matrix-DFT route on values: focus(w, Q) == dft2(w, Q, Q * shape) and unfocus(w, Q) == idft2(...)
+    for 2x2, 1x2, 2x1 arrays of symbolic complex samples with Q = 2 (padded to lengths 4 / 2) and Q = 1"""
+    P = 'prysm.propagation.'
+    n_ok = 0
+    for fn, meth in (('focus', 'dft2'), ('unfocus', 'idft2')):
+        f = db.func(P + fn)
+        for shape, Q in (((2, 2), 2), ((1, 2), 2), ((2, 1), 2), ((2, 2), 1), ((2, 4), 1), ((3, 3), 1), ((3, 2), 1), ((1, 3), 2)):
+            it, dom = file_interp(db)
+            out = (shape[0] * Q, shape[1] * Q)
+            label = '%s(w, Q=%d) vs %s, %dx%d complex samples -> %dx%d' % (fn, Q, meth, shape[0], shape[1], out[0], out[1])
+
+            def w():
+                return FArr.of(shape, [dom.lift(dom.rat(dom.sym('a%d%d' % (i, j))) + dom.R.I * dom.rat(dom.sym('b%d%d' % (i, j)))) for i in range(shape[0]) for j in range(shape[1])], DType('c', 16))
+            res = it.run(f, kwargs=lambda: {'wavefunction': w(), 'Q': Const(Q)})
+            rets = [p for p in res if p.outcome == 'return']
+            if len(rets) != len(res) or not rets or not all(isinstance(p.value, FArr) for p in rets):
+                raise AnalysisError('%s: the padded-FFT route is not followed (%s)' % (label, [repr(p.value)[:60] for p in res][:2]))
+            ref = _run(db, it, dom, 'MatrixDFTExecutor', meth, shape, out, (0, 0), 'scalar_const_%d' % Q, True)
+            ref_shape, ref_cells = ref[0]
+            for p in rets:
+                cells = [dom.rat(v) for v in p.value.values()]
+                if any(c is None for c in cells):
+                    raise AnalysisError('%s: a sample of the padded-FFT result is not followed' % label)
+                ok = tuple(p.value.shape) == ref_shape and all(x == y for x, y in zip(cells, ref_cells))
+                detail = ''
+                if not ok:
+                    if tuple(p.value.shape) != ref_shape:
+                        detail = 'shapes %s and %s' % (tuple(p.value.shape), ref_shape)
+                    else:
+                        k = next(i for i, (x, y) in enumerate(zip(cells, ref_cells)) if not (x == y))
+                        detail = 'output sample (%d, %d): the FFT route gives %s, the matrix DFT gives %s' % (k // ref_shape[1], k % ref_shape[1], cells[k].key()[:140], ref_cells[k].key()[:140])
+                run.check(ok, 'C01.route', f.qual, 'padded FFT == matrix DFT on values', '%s: equal cell by cell' % label, '%s: the two routes differ -- %s' % (label, detail), f.loc())
+                n_ok += ok
+    return n_ok
